@@ -333,7 +333,7 @@ class Ctx:
             else:
                 self.validated += 1
                 if verdict == "ok":
-                    key = nontrivial_key(o) if nontrivial_key else (o.get("text", str(o["id"])), json.dumps(o.get("env", "")), o.get("k", ""))
+                    key = nontrivial_key(o) if nontrivial_key else (o.get("text", str(o["id"])), json.dumps(o.get("env", "")), o.get("k", ""), json.dumps(o.get("files", "")), json.dumps(o.get("cache", "")), json.dumps(o.get("path", "")), json.dumps(o.get("repr", "")), json.dumps(o.get("spell", "")), o.get("entry", ""))
                     self.nontrivial.add(hashlib.sha1(repr(key).encode()).hexdigest())
             if len(self.samples) < 6 and verdict == "ok" and (len(self.samples) == 0 or hash(str(o["id"])) % 97 == 0):
                 self.samples.append(sample_of(o))
